@@ -47,6 +47,8 @@ EXACT_INTEGER_PART = {'mpf_round_int'}
 OUTWARD_HELPERS = {
     'mpf_outward': (2, 3, 'C14 rule C-R19: computes at prec + 20, multiplies by 1 +- 2**(10-wp) on the outward side and '
                           'rounds with the given mode at the given precision'),
+    'mpc_outward': (2, 3, 'C15 rule C-R19c: computes at prec + 20, moves the part outward by 2**(10-wp) relative to the '
+                          'larger part and rounds with the given mode at the given precision'),
 }
 # helper -> (index of the precision argument, where the bound is verified)
 GUARD_BOUNDED = {
